@@ -11,7 +11,7 @@ def mc_scan(c, wd, tier):
     r = mc("Scan", wd, constants={"MaxSeg": n, "Emit": "FALSE"}, invariants=SCAN_INVS, properties=["Terminates"],
            must_cover=["NextSignature", "ProbeAccept", "ProbeReject", "TailLiteral"], timeout=6000,
            workers=8)
-    c.add_model(r, "every abstract file of <= %d segments over 27 segment classes" % n)
+    c.add_model(r, "every abstract file of <= %d segments over 28 segment classes" % n)
     return r
 
 
